@@ -6166,7 +6166,11 @@ class Path(Shape, MutableSequence):
         the second control point in the previous path."""
         for index in range(len(points)):
             start_pos = self.current_point
-            control1 = self.smooth_point
+            # Only a preceding quadratic curve provides a control point to reflect.
+            if len(self._segments) and isinstance(self._segments[-1], QuadraticBezier):
+                control1 = self.smooth_point
+            else:
+                control1 = start_pos
             end_pos = points[index]
             if end_pos in ("z", "Z"):
                 end_pos = self.z_point
@@ -6204,7 +6208,11 @@ class Path(Shape, MutableSequence):
         the second control point in the previous path."""
         for index in range(0, len(points), 2):
             start_pos = self.current_point
-            control1 = self.smooth_point
+            # Only a preceding cubic curve provides a control point to reflect.
+            if len(self._segments) and isinstance(self._segments[-1], CubicBezier):
+                control1 = self.smooth_point
+            else:
+                control1 = start_pos
             control2 = points[index]
 
             if control2 in ("z", "Z"):
